@@ -1,6 +1,7 @@
 package main
 
 import (
+	"strings"
 	"context"
 	"fmt"
 	"math/rand"
@@ -38,6 +39,8 @@ func c07scenario(who string, nreq, dups int, immediate bool, cancelPct, abandonP
 	st := newStub(nil)
 	router := xmpp.NewRouter()
 	var ordinary, ordinaryReq int64
+	// a route restricted to a payload namespace comes first: responses without a child element are none of its business
+	router.NewRoute().IQNamespaces("jabber:iq:version", "urn:xmpp:ping").HandlerFunc(func(s xmpp.Sender, p stanza.Packet) {})
 	router.NewRoute().HandlerFunc(func(s xmpp.Sender, p stanza.Packet) {
 		if iq, ok := p.(*stanza.IQ); ok {
 			if iq.Type == stanza.IQTypeGet || iq.Type == stanza.IQTypeSet {
@@ -264,6 +267,8 @@ func c07reuse(who string, settleMs int) string {
 	st := newStub(nil)
 	router := xmpp.NewRouter()
 	var ordinary int64
+	// a route restricted to a payload namespace comes first: responses without a child element are none of its business
+	router.NewRoute().IQNamespaces("jabber:iq:version", "urn:xmpp:ping").HandlerFunc(func(s xmpp.Sender, p stanza.Packet) {})
 	router.NewRoute().HandlerFunc(func(s xmpp.Sender, p stanza.Packet) {
 		if iq, ok := p.(*stanza.IQ); ok && (iq.Type == stanza.IQTypeResult || iq.Type == stanza.IQTypeError) {
 			atomic.AddInt64(&ordinary, 1)
@@ -364,6 +369,8 @@ func c07edge(kind, who string) string {
 	}
 	ctx, cancel := context.WithCancel(context.Background())
 	defer cancel()
+	// a route restricted to a payload namespace comes first: responses without a child element are none of its business
+	router.NewRoute().IQNamespaces("jabber:iq:version", "urn:xmpp:ping").HandlerFunc(func(s xmpp.Sender, p stanza.Packet) {})
 	router.NewRoute().HandlerFunc(func(s xmpp.Sender, p stanza.Packet) {
 		if iq, ok := p.(*stanza.IQ); ok && (iq.Type == stanza.IQTypeResult || iq.Type == stanza.IQTypeError) {
 			atomic.AddInt64(&ordinary, 1)
@@ -422,6 +429,95 @@ func c07edge(kind, who string) string {
 		atomic.LoadInt64(&nested), atomic.LoadInt64(&nestedErr), panics, blocked)
 }
 
+// c07wire: the responses arrive as BYTES on the stream and go through the real receive loop (decoder, NextPacket,
+// route): error responses in the shapes servers send - legacy code attribute numeric, empty, not a number, absent;
+// with and without a condition; a result without a child. Each pending request gets exactly its response.
+func c07wire(who string) string {
+	ns := "jabber:client"
+	if who == "component" {
+		ns = "jabber:component:accept"
+	}
+	bodies := []string{
+		"<iq type='error' id='w0' from='srv'><error code='404' type='cancel'><item-not-found xmlns='urn:ietf:params:xml:ns:xmpp-stanzas'/></error></iq>",
+		"<iq type='error' id='w1' from='srv'><error code='' type='cancel'><item-not-found xmlns='urn:ietf:params:xml:ns:xmpp-stanzas'/></error></iq>",
+		"<iq type='error' id='w2' from='srv'><error code='abc' type='wait'/></iq>",
+		"<iq type='error' id='w3' from='srv'><error type='modify'><bad-request xmlns='urn:ietf:params:xml:ns:xmpp-stanzas'/><text xmlns='urn:ietf:params:xml:ns:xmpp-stanzas'>no</text></error></iq>",
+		"<iq type='result' id='w4' from='srv'/>",
+		"<iq type='error' id='w5' from='srv'/>",
+	}
+	stream := "<?xml version='1.0'?><stream:stream xmlns='" + ns + "' xmlns:stream='http://etherx.jabber.org/streams' version='1.0' id='s1'>" + strings.Join(bodies, "")
+	st := newStub(strings.NewReader(stream))
+	if _, err := stanza.InitStream(st.GetDecoder()); err != nil {
+		return "initstream-failed"
+	}
+	router := xmpp.NewRouter()
+	var ordinary int64
+	router.NewRoute().IQNamespaces("jabber:iq:version").HandlerFunc(func(s xmpp.Sender, p stanza.Packet) {})
+	router.NewRoute().HandlerFunc(func(s xmpp.Sender, p stanza.Packet) { atomic.AddInt64(&ordinary, 1) })
+	var sender interface {
+		SendIQ(ctx context.Context, iq *stanza.IQ) (chan stanza.IQ, error)
+	}
+	var run func()
+	if who == "component" {
+		comp, _ := xmpp.NewComponent(xmpp.ComponentOptions{Domain: "c.localhost", Secret: "s"}, router, func(error) {})
+		xmpp.VerifSetComponentTransport(comp, st)
+		sender, run = comp, func() { xmpp.VerifComponentRecv(comp) }
+	} else {
+		client, err := newStubClient(&xmpp.Config{Jid: "u@localhost/r", Credential: xmpp.Password("p")}, router, nil, st)
+		if err != nil {
+			return "newclient-failed"
+		}
+		client.Session = &xmpp.Session{}
+		sender, run = client, func() { xmpp.VerifRecv(client, make(chan struct{})) }
+	}
+	ctx, cancel := context.WithCancel(context.Background())
+	defer cancel()
+	var chans []chan stanza.IQ
+	for i := range bodies {
+		iq, _ := stanza.NewIQ(stanza.Attrs{Type: stanza.IQTypeGet, Id: fmt.Sprintf("w%d", i), To: "srv"})
+		iq.Payload = &stanza.Version{}
+		ch, err := sender.SendIQ(ctx, iq)
+		if err != nil {
+			return "senderr"
+		}
+		chans = append(chans, ch)
+	}
+	panics := 0
+	done := make(chan struct{})
+	go func() {
+		defer close(done)
+		defer func() {
+			if r := recover(); r != nil {
+				panics++
+			}
+		}()
+		run()
+	}()
+	select {
+	case <-done:
+	case <-time.After(5 * time.Second):
+		return "hang"
+	}
+	got, closed := 0, 0
+	for _, ch := range chans {
+		timeout := time.After(300 * time.Millisecond)
+	loop:
+		for {
+			select {
+			case _, ok := <-ch:
+				if !ok {
+					closed++
+					break loop
+				}
+				got++
+			case <-timeout:
+				break loop
+			}
+		}
+	}
+	return fmt.Sprintf("got=%d closed=%d ordinary=%d panics=%d", got, closed, atomic.LoadInt64(&ordinary), panics)
+}
+
 // c07pendreconnect: a request is pending when the connection is lost and the session resumed (the real
 // Client.connect against a scripted server that confirms the resumption): the response, delivered on the resumed
 // session, still reaches the caller's channel - exactly once, channel closed, nothing to the ordinary routes.
@@ -429,6 +525,8 @@ func c07pendreconnect() string {
 	st := newStub(nil)
 	router := xmpp.NewRouter()
 	var ordinary int64
+	// a route restricted to a payload namespace comes first: responses without a child element are none of its business
+	router.NewRoute().IQNamespaces("jabber:iq:version", "urn:xmpp:ping").HandlerFunc(func(s xmpp.Sender, p stanza.Packet) {})
 	router.NewRoute().HandlerFunc(func(s xmpp.Sender, p stanza.Packet) {
 		if iq, ok := p.(*stanza.IQ); ok && (iq.Type == stanza.IQTypeResult || iq.Type == stanza.IQTypeError) {
 			atomic.AddInt64(&ordinary, 1)
@@ -493,6 +591,10 @@ func (c07) Exec(c Case) []string {
 			obs = append(obs, c07pendreconnect())
 			continue
 		}
+		if op[0] == "wire" && len(op) == 2 {
+			obs = append(obs, c07wire(op[1]))
+			continue
+		}
 		if op[0] == "edge" && len(op) == 3 {
 			obs = append(obs, c07edge(op[1], op[2]))
 			continue
@@ -545,6 +647,11 @@ func (c07) Generate(rng *rand.Rand, tier string, st *Stats) []Case {
 			n++
 			st.Inc("reuse_id_after_answer")
 		}
+	}
+	for _, who := range []string{"client", "component"} {
+		cases = append(cases, Case{ID: fmt.Sprintf("c07-%d", n), Ops: [][]string{{"wire", who}}})
+		n++
+		st.Inc("responses_on_the_wire")
 	}
 	for _, who := range []string{"client", "component"} {
 		for _, kind := range []string{"sendfail", "handlersend"} {
